@@ -135,6 +135,18 @@ Theorem C12_mpd : forall oldTS newTS stl,
 Proof. exact changeTimelineTimescale_shape. Qed.
 Print Assumptions C12_mpd.
 
+(** The repaired changeTimelineTimescale (every boundary converted on its own, durations are the
+    differences, run-length compressed; used by the correspondence when the source has it): reading the
+    subtitle timeline back, every listed segment starts at the scaled start of the video segment and
+    ends at the scaled end - whatever the window start and the run-length structure. *)
+Theorem C12_mpd_boundaries : forall oldTS newTS stl t,
+  expand t (changeTimelineTimescaleB oldTS newTS stl) =
+  map (fun x : tseg => let '(_, st, d) := x in
+         (scale_round oldTS newTS st, scale_round oldTS newTS (st + d) - scale_round oldTS newTS st))
+      (segments_from true 0 stl).
+Proof. exact timelineB_listed. Qed.
+Print Assumptions C12_mpd_boundaries.
+
 (** On the millisecond grid the k-th segment of an S element (t, d, r) of the subtitle timeline
     starts where the k-th video segment starts, in ms (exact twins; see C12_ms_grid_partial). *)
 Theorem C12_mpd_grid_partial : forall t d n ts, 0 < ts -> 0 <= t -> 0 <= d -> 0 <= n ->
